@@ -2093,6 +2093,17 @@ def any_counts_as_object(ctx):
                 raise AnalysisError(f"{f.key}: not interpretable on {t!r} / {with_any!r}: {e}")
             if got != ref:
                 problems.append(f"{label} of {t!r} against {with_any!r} ({what}) answers {got}, against {with_object!r} it answers {ref}")
+    # a class whose metaclass refuses issubclass() (protocols with data members, TypedDicts) is simply not matched
+    RefusingMeta = type("RefusingMeta", (type,), {"__subclasscheck__": lambda cls, sub: (_ for _ in ()).throw(TypeError("this class does not support issubclass()"))})
+    Refusing = RefusingMeta("Refusing", (), {})
+    got = run(sc, int, Refusing)
+    ctx.ob(
+        f"{sc.key}:refusing-class-is-no-match",
+        sc.loc(),
+        "a plain class tested against a class that refuses issubclass() (a protocol with data members, a TypedDict) is answered False, not with the TypeError (subtype test interpreted on a class whose metaclass raises)",
+        got is False,
+        f"subclasscheck(int, <class refusing issubclass>) {got if isinstance(got, str) else 'answers ' + repr(got)}: once one method of a function is declared on such a protocol, every call of the function raises instead of reaching the methods declared on plain classes",
+    )
     ctx.ob(
         f"{sc.key}:any-is-object",
         sc.loc(),
@@ -2316,3 +2327,92 @@ def build_functions_are_not_memoised(ctx):
         bad is None,
         (f"{bad[1]}: the result computed for a method at one build is served at every later build, although a registration in between changed the argument analysis - the method keeps rewritten call sites (key functions, keyword folding, self) of the old method set" if bad else ""),
     )
+
+
+# ---------------------------------------------------------------------------------------- the & operator
+def and_operator_is_the_intersection(ctx):
+    """`T & U` on the package's types (the metaclass's `__and__` / `__rand__`), interpreted: whatever the operands are -
+    a plain check type, a union, an intersection - the result accepts exactly the values both operands accept."""
+    import itertools
+
+    repo = ctx.repo
+    metas = [c for c in repo.all_classes() if "type" in c.base_names and "__and__" in c.methods and "__eq__" in c.methods]
+    ctx.require(len(metas) == 1, "forwarding metaclass with the & operator not found")
+    M = metas[0]
+    mraw = repo.raw_methods(M)
+    hattr = None
+    new = M.methods.get("__new__")
+    if new is not None:
+        for d in ast.walk(new.node):
+            if isinstance(d, ast.Dict) and len(d.keys) == 1 and isinstance(d.keys[0], ast.Constant):
+                hattr = d.keys[0].value
+    ctx.require(hattr is not None, f"{M.key}: handler attribute not found")
+    kinds = {c.name: repo.raw_methods(c) for c in repo.all_classes() if c.name in ("Union", "Intersection")}
+    ctx.require(set(kinds) == {"Union", "Intersection"}, "union / intersection classes not found")
+
+    def made(kind, members):
+        h = Instance(kind, kinds[kind])
+        h.__dict__.update(types=tuple(members), __args__=tuple(members))
+        t = Instance(M.name, mraw)
+        t.__dict__[hattr] = h
+        t.__dict__["__args__"] = tuple(members)
+        return t
+
+    def plain(label):
+        h = Instance("SingleFunctionHandler", {})
+        h.__dict__.update(label=label)
+        t = Instance(M.name, mraw)
+        t.__dict__[hattr] = h
+        t.__dict__["label"] = label
+        return t
+
+    atoms = {n: plain(n) for n in ("A", "B", "H")}
+
+    def accepts(t, v):
+        h = t.__dict__.get(hattr) if isinstance(t, Instance) else None
+        if isinstance(h, Instance) and h._cls_name in kinds:
+            q = any if h._cls_name == "Union" else all
+            return q(accepts(m, v) for m in h.types)
+        return v[t.__dict__["label"]]
+
+    class Factory:
+        def __getitem__(self, item):
+            item = tuple(item) if isinstance(item, (tuple, list)) else (item,)
+            return made("Intersection", item)
+
+    funcs = {n: g.node for n, g in M.module.funcs.items() if g.parent is None and g.cls is None and not g.node.decorator_list}
+    hi = HostInterp(mraw, Record(), {}, globals_env={"Intersection": Factory()}, classes={}, functions=funcs)
+    hi.host_types = hi.host_types + (Factory,)
+    operands = {
+        "a check type": atoms["A"],
+        "a union": made("Union", (atoms["A"], atoms["B"])),
+        "an intersection": made("Intersection", (atoms["A"], atoms["B"])),
+    }
+    values = [dict(zip("ABH", bits)) for bits in itertools.product((True, False), repeat=3)]
+    for op in ("__and__", "__rand__"):
+        m = M.methods.get(op)
+        if m is None:
+            continue
+        ctx.touch(m)
+        bad = None
+        for what, left in operands.items():
+            try:
+                res = hi.call_function(mraw[op], [left, atoms["H"]], {}, {})
+            except (AnalysisError, Raised, TypeError, AttributeError) as e:
+                raise AnalysisError(f"{m.key}: not interpretable on {what}: {e}")
+            for v in values:
+                want = accepts(left, v) and v["H"]
+                try:
+                    got = accepts(res, v)
+                except (KeyError, AttributeError, TypeError):
+                    raise AnalysisError(f"{m.key}: the result of & is not a type made from the operands")
+                if got != want and bad is None:
+                    holds = ", ".join(k for k, x in v.items() if x) or "nothing"
+                    bad = f"({what} of A and B) & H {'accepts' if got else 'rejects'} a value for which {holds} hold{'s' if len(holds) == 1 else ''}, but the operands {'both accept' if want else 'do not both accept'} it"
+        ctx.ob(
+            f"{m.key}:is-the-intersection",
+            m.loc(),
+            f"`{'T & U' if op == '__and__' else 'U & T (reflected)'}` accepts exactly the values both operands accept, for a check type, a union and an intersection on the left (interpreted on 3 x 8 value kinds)",
+            bad is None,
+            (bad or "") + ": a method declared on `(A | B) & H` is no longer applicable to an A (or B) that satisfies H",
+        )
